@@ -25,7 +25,7 @@ ASSUMPTIONS = [
     "with link faults enabled the clauses are checked only while the ASH link has not failed",
 ]
 PROBES = ["type.unicast", "type.multicast", "type.broadcast", "type.other_defined", "type.undefined", "join.allowed", "join.denied", "join.left", "join.left_denied",
-          "payload.empty", "payload.max", "rssi.negative", "faulty_link", "xiaomi_prefix", "join.device_known", "message_from_nwk_of_last_join_callback", "reconnect_other_version", "callback_during_reload", "callback_during_energy_scan", "callback_during_permit", "callback_during_add_endpoint"]
+          "payload.empty", "payload.max", "rssi.negative", "faulty_link", "xiaomi_prefix", "join.device_known", "message_from_nwk_of_last_join_callback", "started_by_zigpy_auto_form", "reconnect_other_version", "callback_during_reload", "callback_during_energy_scan", "callback_during_permit", "callback_during_add_endpoint"]
 
 VERSIONS = list(range(4, 15))
 UNICAST, MULTICAST, BROADCAST = 0, 2, 4
@@ -57,6 +57,8 @@ def plan(tier):
         sweeps.append(("joins", {"V": V, "sched": False}))
     for V in VERSIONS:
         sweeps.append(("busy", {"V": V, "sched": False}))
+    for V in VERSIONS:
+        sweeps.append(("autoform", {"V": V, "sched": False}))
     for V, then in ((13, [14]), (14, [13]), (14, [8, 14]), (4, [14, 7]), (8, [9]), (12, [14, 12])):
         sweeps.append(("reconnect", {"V": V, "then": then, "sched": False}))
     return {
@@ -85,7 +87,8 @@ def run(scenario, params, tape, detail=False):
     rig = e3app.AppRig(tape, version=V, sched=params.get("sched", True), plan=plan_, fast_line=not faults, chunking=faults)
     rig.line.ties = False
     loop, ncp = rig.loop, rig.ncp
-    ncp.preform()
+    if scenario != "autoform":
+        ncp.preform()
     viol, probes = [], {}
     sigs = set()
     nev = [0]
@@ -165,8 +168,28 @@ def run(scenario, params, tape, detail=False):
         if len(samples) < 2:
             samples.append({"V": V, "callback": "trustCenterJoinHandler", "frame": frame.hex(), "joins": len(joins), "leaves": len(leaves)})
 
+    async def start_autoform():
+        """A stick that has never been part of a network, brought up the way zigpy does it on a first start: connect() + zigpy's own
+        initialize(auto_form=True) - no channel configured (zigpy's default), so zigpy starts an ephemeral network, scans, writes the final
+        settings and starts the network again, all on ONE connection."""
+        import bellows.zigbee.application as appmod
+        import zigpy.config as zc
+        import zigpy.types as zt
+
+        from .c14 import OsShim
+
+        appmod.os = OsShim(tape)
+        nwk_cfg = {zc.CONF_NWK_PAN_ID: 0x1A2B, zc.CONF_NWK_EXTENDED_PAN_ID: zt.ExtendedPanId.convert("11:22:33:44:55:66:77:88"), zc.CONF_NWK_KEY: zt.KeyData(bytes(range(16)))}
+        app = rig.make_app(**{zc.CONF_NWK: nwk_cfg})
+        ncp.auto_confirm = True
+        await app.connect()
+        rig.ezsp = app._ezsp
+        await app.initialize(auto_form=True)
+        probe("started_by_zigpy_auto_form")
+        return app
+
     async def main():
-        app = await rig.start_app()
+        app = await (start_autoform() if scenario == "autoform" else rig.start_app())
         if faults:
             plan_.on = True
             probe("faulty_link")
@@ -176,6 +199,12 @@ def run(scenario, params, tape, detail=False):
                 aps = (0x0104, 0x0006 + mtype, 1 + k, 1, 0x0140, 0x1234 + mtype, mtype ^ 0x5A)
                 msg = (b"", b"\x01", bytes(range(40)), bytes([0x7E, 0x11, 0x13, 0x1A] * 20))[k]
                 await incoming(app, mtype, aps, (0, 255, 1, 128)[k], (-128, 127, 0, -1)[k], (0x0001, 0xFFF7, 0xABCD, 0x0000)[k], k, 0xFF - k, msg)
+        elif scenario == "autoform":
+            for k, mtype in enumerate((UNICAST, MULTICAST, BROADCAST, 1, UNICAST)):
+                aps = (0x0104, 0x0006 + k, 1 + k, 1, 0x0140, 0x1234 + k, 0x21 + k)
+                await incoming(app, mtype, aps, 200 + k, -40 - k, 0x4000 + k, k, 0xFF - k, (b"", b"\x01\x02", bytes(range(30)), b"\x7e\x11", b"z")[k])
+            await tcjoin(app, 0x1234, bytes([1, 2, 3, 4, 5, 6, 7, 8]), 0, 0, 0x0000)
+            await tcjoin(app, 0x1234, bytes([1, 2, 3, 4, 5, 6, 7, 8]), DEVICE_LEFT, 0, 0x0000)
         elif scenario == "reconnect":
             # one application object, two sticks: callbacks on an NCP of version V, then disconnect and connect again to an NCP of version V2
             # (other side of the v14 field-order boundary included); translation must follow the version of the current connection
